@@ -130,7 +130,7 @@ class C15(Prop):
 
     def model_request(self, case, impl):
         specs = {r["id"]: r for c in case["comps"] for r in c["regs"]}
-        regs = [[l[1], l[2], [[x["id"], x["pass"]] for x in specs[l[1]].get("late", [])]]
+        regs = [[l[1], l[2], [[x["id"], x["pass"]] for x in specs.get(l[1], {}).get("late", [])]]
                 for l in impl["log"] if l[0] == "reg"]
         e = dict(case["ending"])
         return {"kind": "runner", "regs": regs, "ending": e}
